@@ -36,6 +36,9 @@ type hcLane struct {
 	Yields []int       `json:"yields,omitempty"` // scheduler yields before each action
 }
 
+// a phase that has not finished by then is examined for blocked handlers
+var phaseWatchdog = 180 * time.Second
+
 type hcPhase struct {
 	Lanes []hcLane `json:"lanes"`
 }
@@ -225,12 +228,14 @@ func (e *executor) execPhase(op hcOp, r *stepResult) {
 	go func() { wg.Wait(); close(done) }()
 	select {
 	case <-done:
-	case <-time.After(180 * time.Second):
+	case <-time.After(phaseWatchdog):
 		buf := make([]byte, 1<<20)
 		dump := string(buf[:runtime.Stack(buf, true)])
 		if strings.Contains(dump, "sync.(*Mutex).Lock") || strings.Contains(dump, "sync.(*RWMutex).Lock") || strings.Contains(dump, "chan receive") {
-			pr.violation = viol(c15, "no request deadlocks", "deadlock", "a concurrent phase of %d lanes did not complete within 180 s; goroutines:\n%s", len(lanes), dump)
+			pr.violation = viol(c15, "no request deadlocks", "deadlock", "a concurrent phase of %d lanes did not complete within %v; goroutines:\n%s", len(lanes), phaseWatchdog, dump)
 			e.scratch["wedged"] = true
+			// re-executions while shrinking need not wait that long again
+			phaseWatchdog = 20 * time.Second
 			return
 		}
 		panic("INCONCLUSIVE: concurrent phase timed out without a blocked handler")
